@@ -661,3 +661,115 @@ Example C11_tolerances_and_history_nonvacuous :
                     VL [VL [VZ 1%Z; VZ 3%Z]; VL [VZ 2%Z; VZ 4%Z]]]]] = [].
 Proof. vm_compute. reflexivity. Qed.
 Print Assumptions C11_tolerances_and_history_nonvacuous.
+
+(* ---- frames whose plane orientation / pixel spacing / spacing hint are stored PER FRAME (frame table with one
+   row per frame; _get_shared_frame_value demands ONE distinct value).  attrs_eqb a b = the two frames carry the
+   same ImageOrientationPatient, PixelSpacing and SpacingBetweenSlices (float equality);
+   consistent frames := every two frames of the table agree. *)
+From HD Require Import C11_Proofs_PerFrame.
+
+(* irregular stacks are rejected, non-parallel / non-congruent frames: two frames that disagree - wherever they
+   sit in the frame table, whatever the positions, tolerances and declarations - give no geometry (None) and no
+   volume (RuntimeError) *)
+Theorem C11_perframe_inconsistent_refused : forall frames a b chans outch rtol atol seg om od,
+  In a frames -> In b frames -> attrs_eqb a b = false ->
+  perframe_geometry frames rtol atol seg om od = Ok None /\
+  perframe_volume chans outch frames rtol atol seg om = Err "RuntimeError"%string.
+Proof. exact perframe_inconsistent_refused. Qed.
+Print Assumptions C11_perframe_inconsistent_refused.
+
+(* THE orientation / pixel spacing / hint exist exactly for a non-empty table whose frames all agree *)
+Theorem C11_shared_values_iff_consistent : forall frames,
+  (exists s, shared_attrs frames = Ok s) <-> (frames <> [] /\ consistent frames).
+Proof. exact shared_attrs_ok_iff. Qed.
+Print Assumptions C11_shared_values_iff_consistent.
+
+(* a reported geometry is sound: all frames agree, the shared values are those of the (first) frame and the
+   geometry is the geometry of the frame positions under that orientation and hint - so
+   C11_geometry_follows_declarations / C11_accepted_sound / C11_irregular_rejected apply to it *)
+Theorem C11_perframe_geometry_sound : forall frames rtol atol seg om od g s,
+  perframe_geometry frames rtol atol seg om od = Ok (Some (g, s)) ->
+  consistent frames /\
+  (exists f rest, frames = f :: rest /\
+     s = mkShared (fa_rowc f) (fa_colc f) (fa_px0 f) (fa_px1 f) (fa_sbs f)) /\
+  multiframe_geometry (map fa_pos frames) (sh_rowc s) (sh_colc s) (sh_sbs s) rtol atol seg om od = Ok (Some g).
+Proof. exact perframe_geometry_sound. Qed.
+Print Assumptions C11_perframe_geometry_sound.
+
+Theorem C11_perframe_volume_sound : forall chans outch frames rtol atol seg om g slots s,
+  perframe_volume chans outch frames rtol atol seg om = Ok (g, slots, s) ->
+  consistent frames /\
+  channel_volume chans outch (map fa_pos frames) (sh_rowc s) (sh_colc s) (sh_sbs s) rtol atol seg om = Ok (g, slots).
+Proof. exact perframe_volume_sound. Qed.
+Print Assumptions C11_perframe_volume_sound.
+
+(* per-frame values that all agree behave exactly like values in the shared functional groups *)
+Theorem C11_perframe_agreeing_is_shared : forall s frames rtol atol seg om od, frames <> [] -> uniform s frames ->
+  perframe_geometry frames rtol atol seg om od =
+  with_shared s (multiframe_geometry (map fa_pos frames) (sh_rowc s) (sh_colc s) (sh_sbs s) rtol atol seg om od).
+Proof. exact perframe_uniform. Qed.
+Print Assumptions C11_perframe_agreeing_is_shared.
+
+Theorem C11_perframe_volume_agreeing_is_shared : forall s chans outch frames rtol atol seg om,
+  frames <> [] -> uniform s frames ->
+  perframe_volume chans outch frames rtol atol seg om =
+  match channel_volume chans outch (map fa_pos frames) (sh_rowc s) (sh_colc s) (sh_sbs s) rtol atol seg om with
+  | Err k => Err k
+  | Ok (g, slots) => Ok (g, slots, s)
+  end.
+Proof. exact perframe_volume_uniform. Qed.
+Print Assumptions C11_perframe_volume_agreeing_is_shared.
+
+(* order_invariant: whether the frames have shared values does not depend on the order of the frame table ... *)
+Theorem C11_shared_values_order_free : forall frames frames2, Permutation frames frames2 ->
+  ((exists s, shared_attrs frames = Ok s) <-> (exists s, shared_attrs frames2 = Ok s)).
+Proof. exact shared_attrs_order_free. Qed.
+Print Assumptions C11_shared_values_order_free.
+
+(* ... and for frames that agree (Leibniz) or contain two frames that disagree, the geometry in any two orders
+   of the frame table is the same (verdict, number of slices, spacing, slice axis, origins at index 0) *)
+Theorem C11_perframe_order_invariant : forall frames frames2 rtol atol seg om od,
+  Permutation frames frames2 ->
+  ((exists s, uniform s frames) \/ (exists a b, In a frames /\ In b frames /\ attrs_eqb a b = false)) ->
+  exists f,
+    same_geometry f (map fa_pos frames) (map fa_pos frames2)
+      (geometry_only (perframe_geometry frames rtol atol seg om od))
+      (geometry_only (perframe_geometry frames2 rtol atol seg om od)).
+Proof. exact perframe_order_invariant. Qed.
+Print Assumptions C11_perframe_order_invariant.
+
+(* non-vacuity: five axial frames stepping along z with per-frame orientation and pixel measures.  All agree:
+   5 slices (spacing 1, in-plane axes = column cosines x 1/2, row cosines x 3/4) and the volume; the fourth frame
+   sagittal, or with another pixel spacing, or with another spacing hint: None and RuntimeError - also with the
+   foreign frame first *)
+Example C11_perframe_nonvacuous :
+  let ax := fun px0 h z => mkFA (V3 1 0 0) (V3 0 1 0) px0 (3#4) h (V3 0 0 z) in
+  let sag := fun z => mkFA (V3 0 1 0) (V3 0 0 (-1)) (1#2) (3#4) (Some 1) (V3 0 0 z) in
+  let ok := [ax (1#2) (Some 1) 0; ax (1#2) (Some 1) (-2); ax (1#2) (Some 1) (-1); ax (1#2) (Some 1) (-4);
+             ax (1#2) (Some 1) (-3)] in
+  let bad_ori := [ax (1#2) (Some 1) 0; ax (1#2) (Some 1) (-2); ax (1#2) (Some 1) (-1); sag (-4);
+                  ax (1#2) (Some 1) (-3)] in
+  let bad_px := [ax (1#2) (Some 1) 0; ax (1#2) (Some 1) (-2); ax (1#2) (Some 1) (-1); ax 1 (Some 1) (-4);
+                 ax (1#2) (Some 1) (-3)] in
+  let bad_sbs := [ax (1#2) (Some 2) (-4); ax (1#2) (Some 1) 0; ax (1#2) (Some 1) (-2); ax (1#2) (Some 1) (-1);
+                  ax (1#2) (Some 1) (-3)] in
+  let qs := [QGeom None None None None; QVol None None None] in
+  uniform (mkShared (V3 1 0 0) (V3 0 1 0) (1#2) (3#4) (Some 1)) ok /\
+  (exists a b, In a bad_ori /\ In b bad_ori /\ attrs_eqb a b = false) /\
+  mismatches
+    [run_pf_history [0;0;0;0;0]%Z [0%Z] ok false qs;
+     run_pf_history [0;0;0;0;0]%Z [0%Z] bad_ori false qs;
+     run_pf_history [0;0;0;0;0]%Z [0%Z] bad_px false qs;
+     run_pf_history [0;0;0;0;0]%Z [0%Z] bad_sbs false qs]
+    [VL [VL [VZ 5; VQ 1; vvec (V3 0 0 0); vvec (V3 0 0 (-1)); vvec (V3 0 (1#2) 0); vvec (V3 (3#4) 0 0)];
+         VL [VZ 5; VQ 1; vvec (V3 0 0 0); vvec (V3 0 0 (-1)); vvec (V3 0 (1#2) 0); vvec (V3 (3#4) 0 0);
+             VL [VL [VZ 1]; VL [VZ 3]; VL [VZ 2]; VL [VZ 5]; VL [VZ 4]]]];
+     VL [VNone; VErr "RuntimeError"]; VL [VNone; VErr "RuntimeError"]; VL [VNone; VErr "RuntimeError"]] = [].
+Proof.
+  cbv zeta. split; [|split].
+  - intros f Hf. cbn in Hf. repeat (destruct Hf as [<-|Hf]; [cbn; repeat split|]). contradiction.
+  - eexists. eexists. split; [left; reflexivity|]. split; [right; right; right; left; reflexivity|].
+    vm_compute. reflexivity.
+  - vm_compute. reflexivity.
+Qed.
+Print Assumptions C11_perframe_nonvacuous.
